@@ -153,8 +153,22 @@ def build_room(w, rid, spec, keys, ents, tag, gids=None):
         if r.variant != 0:
             raise PathEnd()
 
-    for i in range(spec.get('admins', 0)):
-        k = w.atom('%s_adm%d_key' % (tag, i), keys, 'bytes')
+    def entries(v):
+        # int n: n entries with symbolic key/entity from the alphabet; list: concrete names (no fork while building)
+        if isinstance(v, int):
+            return [None] * v
+        return list(v)
+
+    def pick(name, concrete, alphabet, kind, n=None):
+        if concrete is None:
+            return w.atom(name, alphabet, kind, n=n)
+        for a in alphabet:
+            if a.lit.startswith(concrete.encode()):
+                return a
+        return S(lit=concrete, text=(kind == 'str'))
+
+    for i, kc in enumerate(entries(spec.get('admins', 0))):
+        k = pick('%s_adm%d_key' % (tag, i), kc, keys, 'bytes', 33)
         d = w.i64('%s_adm%d_date' % (tag, i))
         e = w.boolean('%s_adm%d_en' % (tag, i))
         must_ok(ctx.call(add_admin, [Ref(rc, True), w.user(k, d, e)]))
@@ -166,20 +180,20 @@ def build_room(w, rid, spec, keys, ents, tag, gids=None):
         w.field(auth, 'Authorisation', 'mdate').v = w.i64('%s_g%d_mdate' % (tag, gi))
         ac = Cell(auth)
         ge = GroupEvents(gid)
-        for i in range(gs.get('users', 0)):
-            k = w.atom('%s_g%d_usr%d_key' % (tag, gi, i), keys, 'bytes')
+        for i, kc in enumerate(entries(gs.get('users', 0))):
+            k = pick('%s_g%d_usr%d_key' % (tag, gi, i), kc, keys, 'bytes', 33)
             d = w.i64('%s_g%d_usr%d_date' % (tag, gi, i))
             e = w.boolean('%s_g%d_usr%d_en' % (tag, gi, i))
             must_ok(ctx.call(add_user, [Ref(ac, True), w.user(k, d, e)]))
             ge.users.append((k, d, e))
-        for i in range(gs.get('user_admins', 0)):
-            k = w.atom('%s_g%d_uad%d_key' % (tag, gi, i), keys, 'bytes')
+        for i, kc in enumerate(entries(gs.get('user_admins', 0))):
+            k = pick('%s_g%d_uad%d_key' % (tag, gi, i), kc, keys, 'bytes', 33)
             d = w.i64('%s_g%d_uad%d_date' % (tag, gi, i))
             e = w.boolean('%s_g%d_uad%d_en' % (tag, gi, i))
             must_ok(ctx.call(add_user_admin, [Ref(ac, True), w.user(k, d, e)]))
             ge.user_admins.append((k, d, e))
-        for i in range(gs.get('rights', 0)):
-            en = w.atom('%s_g%d_rgt%d_ent' % (tag, gi, i), ents, 'str')
+        for i, kc in enumerate(entries(gs.get('rights', 0))):
+            en = pick('%s_g%d_rgt%d_ent' % (tag, gi, i), kc, ents, 'str')
             d = w.i64('%s_g%d_rgt%d_date' % (tag, gi, i))
             ms = w.boolean('%s_g%d_rgt%d_ms' % (tag, gi, i))
             ma = w.boolean('%s_g%d_rgt%d_ma' % (tag, gi, i))
